@@ -83,7 +83,12 @@ func runC18(c *Ctx) {
 			if !reachableFrom(f.Blocks[0], nil)[in.Block()] {
 				return
 			}
-			seenRead := s.SeenBefore(in)["call:(*Client).readResponse"]
+			seenRead := false
+			for l := range s.SeenBefore(in) {
+				if replyReadLabels(c)[l] {
+					seenRead = true
+				}
+			}
 			if !seenRead {
 				return // did not get as far as the replies
 			}
@@ -113,7 +118,7 @@ func runC18(c *Ctx) {
 		for _, f := range c18CloseScope(c) {
 			loops := findLoops(f)
 			allInstrs(f, func(in ssa.Instruction) {
-				if !isStaticCall(in, "(*Client).readResponse") {
+				if !isReplyRead(in) {
 					return
 				}
 				nRd++
@@ -139,7 +144,7 @@ func runC18(c *Ctx) {
 		for _, li := range findLoops(f) {
 			for b := range li.blocks {
 				for _, in := range b.Instrs {
-					if isStaticCall(in, "(*Client).readResponse") {
+					if isReplyRead(in) {
 						loop = li
 					}
 				}
@@ -184,7 +189,7 @@ func runC18(c *Ctx) {
 			R.Ob("(*dataCloser).Close/loop runs while remaining > 0", c.P.InstrPos(loop.header.Instrs[0]), okCond, "loop condition is not remaining > 0")
 			res := CountPathsOpt(f, CountOpts{Start: loop.body, ExitEdge: func(from, to *ssa.BasicBlock) bool { return to == loop.header }, NoReturn: true,
 				Count: func(in ssa.Instruction) (int, int) {
-					if isStaticCall(in, "(*Client).readResponse") {
+					if isReplyRead(in) {
 						return 1, 1
 					}
 					return 0, 0
@@ -207,6 +212,11 @@ func runC18(c *Ctx) {
 				}})
 			R.Ob("(*dataCloser).Close/callback exactly once per iteration when supplied", c.P.InstrPos(loop.header.Instrs[0]), cbH.Min == 1 && cbH.Max == 1, fmt.Sprintf("with a callback it fires %d..%d times per iteration", cbH.Min, cbH.Max))
 			// attribution
+			errAtoms := replyErrAtomsIn(f, loop.blocks)
+			assertAtoms := map[string]bool{}
+			for _, a := range errAtoms {
+				assertAtoms["assert[*SMTPError]("+a+")#0"] = true
+			}
 			idxRe := regexp.MustCompile(`^Client\.rcpts\[\(builtin:len\(Client\.rcpts\) - loopvar:expectedResponses@for\.loop#\d+\)\]$`)
 			if rangeShape {
 				idxRe = regexp.MustCompile(`^Client\.rcpts\[\(loopvar:rangeindex@rangeindex\.loop#\d+ \+ 1\)\]$`)
@@ -219,9 +229,9 @@ func runC18(c *Ctx) {
 					cc := callCommon(in)
 					R.Ob(c.siteKey(in, "callback names rcpts[len-remaining]"), c.P.InstrPos(in), describe(cc.Value) == "dataCloser.statusCb" && idxRe.MatchString(describe(cc.Args[0])), "callback invoked as "+describe(cc.Value)+"("+describe(cc.Args[0])+", ...)")
 					st := describe(cc.Args[1])
-					R.Ob(c.siteKey(in, "callback status is this iteration's reply"), c.P.InstrPos(in), st == "nil" || st == "assert[*SMTPError]((*Client).readResponse(dataCloser.c,250)#2)#0", "callback status is "+st)
+					R.Ob(c.siteKey(in, "callback status is this iteration's reply"), c.P.InstrPos(in), st == "nil" || assertAtoms[st], "callback status is "+st)
 					if st == "nil" {
-						c.obFactMatch("nil status only for a positive reply", in, `^\(\*Client\)\.readResponse\(dataCloser\.c,250\)#2 == nil$`, "positive status reported although the reply was not read successfully")
+						c.obFactMatch("nil status only for a positive reply", in, "^("+strings.Join(quoteAll(errAtoms), "|")+") == nil$", "positive status reported although the reply was not read successfully")
 					}
 				}
 			}
@@ -239,11 +249,13 @@ func runC18(c *Ctx) {
 				return
 			}
 			for _, l := range leafSources(returnedValues(r)[0]) {
-				if strings.Contains(l, "assert[*SMTPError]((*Client).readResponse(dataCloser.c,250)#2)#0") {
-					viaReturn = true
-				}
-				if l == "(*Client).readResponse(dataCloser.c,250)#2" {
-					nonSMTP = true
+				for _, a := range replyErrAtoms(f) {
+					if strings.Contains(l, "assert[*SMTPError]("+a+")#0") {
+						viaReturn = true
+					}
+					if l == a {
+						nonSMTP = true
+					}
 				}
 			}
 		})
@@ -267,7 +279,7 @@ func ruleLMTPLoopComplete(c *Ctx) {
 		reads := false
 		for b := range li.blocks {
 			for _, in := range b.Instrs {
-				if isStaticCall(in, "(*Client).readResponse") {
+				if isReplyRead(in) {
 					reads = true
 				}
 			}
@@ -281,7 +293,15 @@ func ruleLMTPLoopComplete(c *Ctx) {
 			for _, in := range b.Instrs {
 				if _, ok := in.(*ssa.Return); ok {
 					n++
-					c.obUnreach("return from inside the reply loop", in, `assert[*SMTPError]((*Client).readResponse(dataCloser.c,250)#2)#1 == true`)
+					var H []string
+					for _, a := range replyErrAtomsIn(f, li.blocks) {
+						H = append(H, "assert[*SMTPError]("+a+")#1 == true")
+					}
+					if len(H) == 1 {
+						c.obUnreach("return from inside the reply loop", in, H...)
+					} else {
+						R.Ob(c.siteKey(in, "return from inside the reply loop"), c.P.InstrPos(in), false, fmt.Sprintf("%d reply reads in the loop function: which reply the return belongs to is not decided", len(H)))
+					}
 				}
 			}
 		}
@@ -370,7 +390,7 @@ func c18ReplyLoopFunc(c *Ctx) *ssa.Function {
 		for _, li := range findLoops(f) {
 			for b := range li.blocks {
 				for _, in := range b.Instrs {
-					if isStaticCall(in, "(*Client).readResponse") {
+					if isReplyRead(in) {
 						return f
 					}
 				}
@@ -378,4 +398,105 @@ func c18ReplyLoopFunc(c *Ctx) *ssa.Function {
 		}
 	}
 	return c.A.Func("(*dataCloser).Close")
+}
+
+// A "reply read" is a call of (*Client).readResponse, or of a thin unexported wrapper of it: a package function whose
+// only call is readResponse, with the expected code 250 (constant, or a parameter bound to 250), and whose error
+// result is readResponse's error on every return (readRcptStatus() error { _, _, err := c.readResponse(250); return err }).
+func replyReadErrAtom(in ssa.Instruction) (string, bool) {
+	v, isV := in.(ssa.Value)
+	cc := callCommon(in)
+	if !isV || cc == nil {
+		return "", false
+	}
+	if _, isCall := in.(*ssa.Call); !isCall {
+		return "", false
+	}
+	g := staticCallee(cc)
+	if g == nil {
+		return "", false
+	}
+	if funcName(g) == "(*Client).readResponse" {
+		return describe(v) + "#2", true
+	}
+	if !inSmtp(g) || isExported(g) || g.Parent() != nil || g.Blocks == nil {
+		return "", false
+	}
+	var inner *ssa.Call
+	nCalls := 0
+	allInstrs(g, func(i2 ssa.Instruction) {
+		if c2 := callCommon(i2); c2 != nil {
+			if _, isB := c2.Value.(*ssa.Builtin); isB {
+				return
+			}
+			nCalls++
+			if h := staticCallee(c2); h != nil && funcName(h) == "(*Client).readResponse" {
+				inner, _ = i2.(*ssa.Call)
+			}
+		}
+	})
+	if inner == nil || nCalls != 1 {
+		return "", false
+	}
+	// expected code
+	code := describe(inner.Call.Args[1])
+	for i, p := range g.Params {
+		if inner.Call.Args[1] == ssa.Value(p) && i < len(cc.Args) {
+			code = describe(cc.Args[i])
+		}
+	}
+	if code != "250" {
+		return "", false
+	}
+	k := returnsValueDescribed(g, describe(inner)+"#2")
+	if k < 0 {
+		return "", false
+	}
+	if g.Signature.Results().Len() == 1 {
+		return describe(v), true
+	}
+	return fmt.Sprintf("%s#%d", describe(v), k), true
+}
+
+func isReplyRead(in ssa.Instruction) bool {
+	_, ok := replyReadErrAtom(in)
+	return ok
+}
+
+func replyErrAtoms(f *ssa.Function) []string { return replyErrAtomsIn(f, nil) }
+
+func replyErrAtomsIn(f *ssa.Function, blocks map[*ssa.BasicBlock]bool) []string {
+	var out []string
+	allInstrs(f, func(in ssa.Instruction) {
+		if blocks != nil && !blocks[in.Block()] {
+			return
+		}
+		if a, ok := replyReadErrAtom(in); ok {
+			out = append(out, a)
+		}
+	})
+	return dedup(out)
+}
+
+// replyReadLabels: the event labels of reply reads in the Close scope (readResponse and its thin wrappers).
+func replyReadLabels(c *Ctx) map[string]bool {
+	out := map[string]bool{"call:(*Client).readResponse": true}
+	for _, f := range c18CloseScope(c) {
+		allInstrs(f, func(in ssa.Instruction) {
+			if isReplyRead(in) {
+				if g := staticCallee(callCommon(in)); g != nil {
+					out["call:"+funcName(g)] = true
+				}
+			}
+		})
+	}
+	return out
+}
+
+func quoteAll(ss []string) []string {
+	var out []string
+	for _, x := range ss {
+		out = append(out, regexp.QuoteMeta(x))
+	}
+	return out
 }
